@@ -18,6 +18,7 @@ mod streams;
 mod pool;
 mod server;
 mod tls;
+mod tlsp;
 mod srvk;
 mod np;
 mod e2e;
@@ -32,6 +33,7 @@ fn gen(stream: &str, seed: u64, n: u64) -> Vec<String> {
         "srvk-exhaustive" => return srvk::exhaustive(),
         "np-exhaustive" => return np::exhaustive(),
         "poolt-exhaustive" => return pool::exhaustive_idle(),
+        "tlsp-exhaustive" => return tlsp::exhaustive(),
         _ => {}
     }
     let mut rng = rng::Rng::new(seed ^ fxhash(stream));
@@ -49,6 +51,7 @@ fn gen(stream: &str, seed: u64, n: u64) -> Vec<String> {
                 "pool" => pool::gen(&mut r, i),
                 "srv" => server::gen(&mut r, i),
                 "tls" => tls::gen(&mut r, i),
+                "tlsp" => tlsp::gen(&mut r, i),
                 "srvk" => srvk::gen(&mut r, i),
                 "np" => np::gen(&mut r, i),
                 "e2e" => e2e::gen(&mut r, i),
@@ -81,6 +84,7 @@ fn run_line(line: &str) -> String {
         "pool" => pool::run(&toks),
         "srv" => server::run(&toks),
         "tls" => tls::run(&toks),
+        "tlsp" => tlsp::run(&toks),
         "srvk" => srvk::run(&toks),
         "np" => np::run(&toks),
         "e2e" => e2e::run(&toks),
